@@ -88,4 +88,5 @@ func init() {
 	add("C06", "R06j = R10k.", "")
 	add("C09", "R09k: the keep flag the from-roots constructor stores with a root depends on its full argument, never a constant.", "")
 	add("C08", "R08i: in the cached-proof update and undo no return is taken on TreeRows(x) == 0 alone (a forest of one leaf has zero rows and a provable leaf).", "")
+	add("C16", "R16e: a row (DetectRow result or loop counter) is compared with a forest height (TreeRows result, TotalRows field, a parameter receiving one at every call site) only inclusively.", "")
 }
